@@ -28,7 +28,7 @@ func (c *Cache) visit(k uint64, preempt int) bool {
 // Explorer enumerates the schedules of Body depth-first.
 type Explorer struct {
 	Body     func()
-	Bound    int  // preemption bound, -1 = unbounded
+	Bound    int // preemption bound, -1 = unbounded
 	UseCache bool
 	MaxSteps int
 	MaxExec  int64 // safety cap, 0 = none
